@@ -514,6 +514,11 @@ std::vector<double> GridLocalPolynomial::getCandidateConstructionPoints(double t
     // combine the initial points with negative weights and the refinement candidates with surplus weights (no need to normalize, the sort uses relative values)
     MultiIndexSet refine_candidates = getRefinementCanidates<effrule>(tolerance, criteria, output, level_limits, scale_correction);
     MultiIndexSet new_points = (dynamic_values->initial_points.empty()) ? std::move(refine_candidates) : refine_candidates - dynamic_values->initial_points;
+    if (!dynamic_values->data.empty()){ // samples that are already stored (waiting for their parents to be loaded) are not candidates
+        Data2D<int> stored(num_dimensions, 0);
+        for(auto const &d : dynamic_values->data) stored.appendStrip(d.point);
+        new_points = new_points - MultiIndexSet(stored);
+    }
 
     // compute the weights for the new_points points
     std::vector<double> norm = getNormalization();
